@@ -58,7 +58,7 @@ CLAIMS = {
     "C19": ("IndexOptimized heap cost equals the documented rule computed on a model (free stride prefix, 4 bytes per u32 entry, 8 from the first larger value) for unconstrained sequences and from each mode; the dense-index step Striding(1,c).push(c) is absorbed for any c; FlatStacks over consecutive-pair and columns regions spend zero bytes (used and capacity) on their own indices.",
             "Sequences of 2-3 (thorough 4) values; the any-number-of-items claim rests on the one-step obligation plus C12.", "3 C19"),
     "C20": ("Twin runs where one region receives a history mixing all input forms (owned, &, &&, array, slice, Vec, &Vec, PushIter, read items in both representations) and the other the canonical form: equal indices and used bytes after every step, equal reads - for OwnedRegion, StringRegion, SliceRegion, ColumnsRegion, Mirror/Vec/Option/Result/Tuple regions and through wrappers.",
-            "One value per form with concrete shape, incl. the empty value and a narrower row after a wider one for the read-item forms; Huffman container forms not covered (B-tree). The runner compares the impl Push headers of the current sources with the list the form tables were written against and reports a new header as uncovered (exit 2).", "3 C20"),
+            "One value per form with concrete shape, incl. the empty value and a narrower row after a wider one for the read-item forms; Huffman container forms not covered (B-tree). The runner compares the impl Push headers of the current sources with the list the form tables were written against and reports a new header as uncovered (evidence and stderr; the exit code is unaffected).", "3 C20"),
 }
 
 READY = os.environ.get("READY", "").split()
